@@ -1,1 +1,88 @@
-From PV Require Import TopPre.
+(* C08 -- a topology is read as its preprocessed, flattened equivalent.
+   Statements only; every proof is `exact <lemma>`; Print Assumptions under each. *)
+From Coq Require Import String Ascii List Bool Arith.
+From PV Require Import TopPre Gen_top C08_top.
+Import ListNotations.
+Open Scope string_scope.
+
+Theorem C08_include_condition : forall known fs rd cwdir s line p rest,
+  plain_pragma line -> tokens line = "#include" :: p :: rest ->
+  do_line known fs rd cwdir s line =
+  if active s then
+    let path := unquote p in
+    let filename := if String.eqb cwdir "" then path else join cwdir path in
+    match fs filename with
+    | None => Err ErrIO
+    | Some ls => match rd (dirname filename) ls (d_sh s) with Ok sh => Ok (with_sh s sh) | Err e => Err e end
+    end
+  else Ok s.
+Proof. exact include_condition. Qed.
+Print Assumptions C08_include_condition.
+
+Theorem C08_active_spec : forall s,
+  active s = true <->
+  d_meta s = None \/
+  (exists t, d_meta s = Some (t, true) /\ defined (sh_defines (d_sh s)) t = true) \/
+  (exists t, d_meta s = Some (t, false) /\ defined (sh_defines (d_sh s)) t = false).
+Proof. exact active_spec. Qed.
+Print Assumptions C08_active_spec.
+
+Theorem C08_error_exact : forall known fs rd cwdir s line rest,
+  plain_pragma line -> tokens line = "#error" :: rest ->
+  do_line known fs rd cwdir s line = if active s then Err ErrNotImpl else Ok s.
+Proof. exact error_exact. Qed.
+Print Assumptions C08_error_exact.
+
+Theorem C08_else_inverts_and_no_nesting : forall known fs rd cwdir s line,
+  starts "#" line = true -> String.eqb line "#endif" = false -> itp_nonempty s = false ->
+  (forall t c, starts "#else" line = true -> d_meta s = Some (t, c) ->
+     do_line known fs rd cwdir s line = Ok (with_meta s (Some (t, negb c)))) /\
+  (forall m, starts "#else" line = false -> (starts "#ifdef" line || starts "#ifndef" line) = true -> d_meta s = Some m ->
+     do_line known fs rd cwdir s line = Err ErrIO).
+Proof.
+  exact (fun known fs rd cwdir s line H1 H2 H3 =>
+    conj (fun t c H4 H5 => else_inverts known fs rd cwdir s line t c H1 H2 H4 H3 H5)
+         (fun m H4 H5 H6 => nested_conditional_rejected known fs rd cwdir s line m H1 H2 H4 H5 H3 H6)).
+Qed.
+Print Assumptions C08_else_inverts_and_no_nesting.
+
+Theorem C08_define_always : forall known fs rd cwdir s line tag params,
+  plain_pragma line -> tokens line = "#define" :: tag :: params ->
+  exists s', do_line known fs rd cwdir s line = Ok s' /\
+             sh_defines (d_sh s') = dset (sh_defines (d_sh s)) tag params /\ d_meta s' = d_meta s.
+Proof. exact define_always. Qed.
+Print Assumptions C08_define_always.
+
+(* independent of comments, blank lines, star lines and whitespace *)
+Theorem C08_decoration_invariance :
+  (forall s c, (forall x, In x (list_ascii_of_string s) -> x <> ";"%char) -> clean (s ++ String ";"%char c) = clean s) /\
+  (forall w s, is_ws w = true -> tokens (String w s) = tokens s) /\
+  (forall w s cur, is_ws w = true -> cur <> "" -> tokens_aux (String w (String w s)) cur = tokens_aux (String w s) cur) /\
+  (forall known fs rd cwdir s raw r, clean raw = "" ->
+     do_lines known fs rd cwdir s (raw :: r) = do_lines known fs rd cwdir s r) /\
+  (forall known fs rd cwdir s line, starts "#" line = false -> starts "*" line = true ->
+     do_line known fs rd cwdir s line = Ok s).
+Proof.
+  exact (conj comment_invariant (conj tokens_leading_ws (conj tokens_aux_ws_run (conj blank_skipped star_skipped)))).
+Qed.
+Print Assumptions C08_decoration_invariance.
+
+(* the molecule list is the [molecules] section expanded in order with the stated counts *)
+Theorem C08_molecules_expanded :
+  (forall n c r, expand ((n, c) :: r) = (repeat n c ++ expand r)%list) /\
+  (forall es, List.length (expand es) = fold_right (fun e a => snd e + a) 0 es) /\
+  (forall es x, In x (expand es) <-> exists c, In (x, c) es /\ 0 < c).
+Proof. exact (conj expand_cons (conj expand_length expand_in)). Qed.
+Print Assumptions C08_molecules_expanded.
+
+(* (T) section stack over the registered sections of the source *)
+Theorem C08_section_stack :
+  forallb (fun x => forallb (fun y =>
+     slist_eqb (settle top_known_sections 4 ["moleculetype"; x; y]) ["moleculetype"; y]) sub_sections) sub_sections = true.
+Proof. exact (proj1 gen_section_stack). Qed.
+Print Assumptions C08_section_stack.
+
+Example C08_nonvacuous :
+  clean "  [ atoms ]   ; comment" = "[ atoms ]" /\ tokens " 1  TA " = ["1"; "TA"] /\
+  plain_pragma "#include ""a/b.itp""" /\ dirname "lib/ff/ff.itp" = "lib/ff".
+Proof. exact ex_clean. Qed.
